@@ -223,6 +223,25 @@ def toBytes : Prim → Bytes
     | _ => joinBs l
   | p => toStr p
 
+/-- `PrimitiveValue::multiplicity() > 0` -/
+def Prim.nonEmpty : Prim → Bool
+  | .empty => false
+  | .strs l => !l.isEmpty
+  | .str _ => true
+  | .tags l => !l.isEmpty
+  | .u8 l => !l.isEmpty
+  | .i16 l => !l.isEmpty
+  | .u16 l => !l.isEmpty
+  | .i32 l => !l.isEmpty
+  | .u32 l => !l.isEmpty
+  | .i64 l => !l.isEmpty
+  | .u64 l => !l.isEmpty
+  | .f32 l => !l.isEmpty
+  | .f64 l => !l.isEmpty
+  | .date l => !l.isEmpty
+  | .dateTime l => !l.isEmpty
+  | .time l => !l.isEmpty
+
 /-! ## base64 (`base64::engine::general_purpose::STANDARD`) -/
 
 def b64char (n : Nat) : Nat :=
@@ -344,11 +363,11 @@ def asNumbers : Prim → Outcome J
 /-- `InlineBinary` -/
 def inlineBinary (p : Prim) : J := .str (b64enc (toBytes p))
 
-/-- the members after `"vr"` for a primitive value -/
+/-- the members after `"vr"` for a primitive value; a value of multiplicity 0 (`Empty` or a
+vector without items) has none (repaired finding `empty-value-has-member`) -/
 def primMembers (vr : VR) (p : Prim) : Outcome (List (Bytes × J)) :=
-  match p with
-  | .empty => .ok []
-  | p =>
+  if !p.nonEmpty then .ok []
+  else
     match serClass vr with
     | .strings => .ok [(kValue, asStrings p)]
     | .person => .ok [(kValue, asPersonNames p)]
@@ -361,7 +380,10 @@ mutual
 def elemToJson : Elem → Outcome J
   | .prim _ vr p => (primMembers vr p).map fun ms => .obj ((kVr, .str (vrName vr)) :: ms)
   | .seq _ vr items =>
-    (itemsToJson items).map fun js => .obj [(kVr, .str (vrName vr)), (kValue, .arr js)]
+    match items with
+    | [] => .ok (.obj [(kVr, .str (vrName vr))])       -- a sequence without items is empty
+    | items =>
+      (itemsToJson items).map fun js => .obj [(kVr, .str (vrName vr)), (kValue, .arr js)]
   | .pix _ vr => .ok (.obj [(kVr, .str (vrName vr))])
 /-- `Serialize for DicomJson<&[InMemDicomObject]>` -/
 def itemsToJson : List (List Elem) → Outcome (List J)
@@ -523,23 +545,27 @@ def numToFloat (F : Fmt) : Num → Nat
   | .neg n => castInt F (- Int.ofNat n)
   | .flt b => if F == b64 then b else castFF b64 F b
 
+def stripPlus : Bytes → Bytes
+  | 43 :: r => r
+  | r => r
+
+def splitSign : Bytes → Bool × Bytes
+  | 43 :: r => (false, r)
+  | 45 :: r => (true, r)
+  | r => (false, r)
+
 /-- `str::parse::<uN>()`: optional `+`, then digits, in range -/
 def parseUnsigned (hi : Nat) (s : Bytes) : Option Nat :=
-  let d := match s with
-    | 43 :: r => r
-    | r => r
+  let d := stripPlus s
   if d.isEmpty || !d.all isDig then none
   else if digitsVal d ≤ hi then some (digitsVal d) else none
 
 /-- `str::parse::<iN>()`: optional `+`/`-`, then digits, in range -/
 def parseSigned (lo hi : Int) (s : Bytes) : Option Int :=
-  let (neg, d) : Bool × Bytes := match s with
-    | 43 :: r => (false, r)
-    | 45 :: r => (true, r)
-    | r => (false, r)
+  let d := (splitSign s).2
   if d.isEmpty || !d.all isDig then none
   else
-    let v : Int := if neg then - Int.ofNat (digitsVal d) else Int.ofNat (digitsVal d)
+    let v : Int := if (splitSign s).1 then - Int.ofNat (digitsVal d) else Int.ofNat (digitsVal d)
     if lo ≤ v && v ≤ hi then some v else none
 
 /-- `NumberOrText::<f32|f64>::to_num` -/
@@ -694,7 +720,7 @@ def finish (tag : Nat) (st : ElSt) : Outcome (Option Elem) :=
     values.bind fun vals =>
       let value : Outcome ElVal :=
         match vals, st.inline with
-        | none, none => .ok (.prim .empty)
+        | none, none => if vr == .SQ then .ok (.seq []) else .ok (.prim .empty)
         | none, some b =>
           match b64dec b with
           | some d => .ok (.prim (.u8 d))
@@ -852,25 +878,6 @@ def Prim.inRange : Prim → Bool
   | .f64 l => allLt 18446744073709551616 l
   | _ => true
 
-/-- `PrimitiveValue::multiplicity() > 0` -/
-def Prim.nonEmpty : Prim → Bool
-  | .empty => false
-  | .strs l => !l.isEmpty
-  | .str _ => true
-  | .tags l => !l.isEmpty
-  | .u8 l => !l.isEmpty
-  | .i16 l => !l.isEmpty
-  | .u16 l => !l.isEmpty
-  | .i32 l => !l.isEmpty
-  | .u32 l => !l.isEmpty
-  | .i64 l => !l.isEmpty
-  | .u64 l => !l.isEmpty
-  | .f32 l => !l.isEmpty
-  | .f64 l => !l.isEmpty
-  | .date l => !l.isEmpty
-  | .dateTime l => !l.isEmpty
-  | .time l => !l.isEmpty
-
 /-- the value variants that belong to a VR: what the decoders of dicom-rs produce for it, plus the
 textual form (`Str`/`Strs`) for the VRs that are text in the file encoding, and raw bytes for the
 binary VRs.  `Empty` belongs to every VR. -/
@@ -943,11 +950,12 @@ def canonNaN (F : Fmt) (x : Nat) : Nat := if isNaN F x then F.nanBits else x
     one-item `Strs`, dates/times become their DICOM text;
     * IS and DS: the strings as they are, binary `I32`/`F64` become numeric strings;
     * binary VRs: the little-endian bytes as `U8`;
-    * FL/FD: any NaN becomes the canonical NaN;  everything else is unchanged. -/
+    * FL/FD: any NaN becomes the canonical NaN;
+    * a value without items (a vector of length 0) becomes `Empty`; an empty value under VR SQ
+      becomes a sequence without items;  everything else is unchanged. -/
 def normPrim (vr : VR) (p : Prim) : Prim :=
-  match p with
-  | .empty => .empty
-  | p =>
+  if !p.nonEmpty then .empty
+  else
     match serClass vr with
     | .binary => .u8 (toBytes p)
     | .strings =>
@@ -967,7 +975,7 @@ def normPrim (vr : VR) (p : Prim) : Prim :=
 
 mutual
 def normElem : Elem → Elem
-  | .prim t vr p => .prim t vr (normPrim vr p)
+  | .prim t vr p => if vr == .SQ && !p.nonEmpty then .seq t vr [] else .prim t vr (normPrim vr p)
   | .seq t vr items => .seq t vr (normItems items)
   | .pix t vr => .pix t vr
 def normItems : List (List Elem) → List (List Elem)
